@@ -5,6 +5,7 @@ import Proofs.DepGraphInvert
 import Proofs.DepGraphQueries
 import Proofs.DepGraphGraft
 import Proofs.GraftOrder
+import Proofs.DepGraphClosure
 import Proofs.DepGraphTopoComplete
 /-!
 # C16 — the dependency graph mirrors a plain node/edge set under any edit history
@@ -20,7 +21,8 @@ spec (`addNode_refines`, `addDep_refines`, `removeDep_refines`, `removeNode_refi
 and the topological sort is proved sound and total on every such graph (`topo_history`: returns exactly on acyclic
 graphs, every node once after all its dependencies, `cyclic` otherwise).
 `graft` refines its set-level counterpart (`graft_refines_spec`) and preserves the ordering constraints between
-the plain nodes (`graft_preserves_order`); `flatten` (a loop of grafts), `transitive_reduction/closure` are in the executable model and tied to the code by the
+the plain nodes (`graft_preserves_order`); transitive closure and reduction are proved on acyclic graphs (`closure_spec`, `reduction_spec`: same reachability,
+most / fewest edges); `flatten` (the loop of grafts over the nested store) is in the executable model and tied to the code by the
 correspondence; their theorems are not proved yet (`multi_history_refines` is therefore the `…_partial` form of the
 property's first sentence: histories without grafts).  `c16_pinned_refuted` keeps the pinned `graft` (A19) refuted.
 -/
@@ -374,6 +376,38 @@ theorem graft_preserves_order {g sub : G} {s t : Spec} (hg : Refines g s) (hs : 
   constructor
   · exact graft_order_sound hEs hEt hdisj hxx hu hux hw
   · exact graft_order_complete hxx (exists_init_term l lnd lmem hEt lord) hux hwx
+
+/-! ### Transitive closure and reduction (second sentence) -/
+
+/-- **`transitive_closure` on an acyclic graph**: same nodes, an edge exactly where there was a path — hence the same
+reachability, with the most edges (`closure_most`: any graph with that reachability is contained in it) -/
+theorem closure_spec {g : G} {s : Spec} (h : Refines g s) (hac : ¬ s.Cyclic) :
+    ∃ g', g.transitiveClosure = .ok g' ∧ Refines g' ⟨s.N, Relation.TransGen s.E⟩ ∧
+      ∀ S : Nat → Nat → Prop, (∀ a b, Relation.TransGen S a b ↔ Relation.TransGen s.E a b) →
+        ∀ a b, S a b → g'.Edge a b := by
+  have eE : g.Edge = s.E := by funext u w; exact propext (h.2.2 u w)
+  obtain ⟨g', hrun, hi, hn, he⟩ := closure_refines h.1 (fun hc => hac ((cyclic_iff h).1 hc))
+  refine ⟨g', hrun, ⟨hi, fun z => (hn z).trans (h.2.1 z), fun u w => by rw [he u w, eE]⟩, ?_⟩
+  intro S hS a b hab
+  rw [he a b, eE]
+  exact closure_most hS hab
+
+/-- **`transitive_reduction` on an acyclic graph**: same nodes, the same reachability, exactly the edges that no longer
+path doubles — the fewest edges (`reduction_fewest`: any graph with that reachability contains them) -/
+theorem reduction_spec {g : G} {s : Spec} (h : Refines g s) (hac : ¬ s.Cyclic) :
+    ∃ g', g.transitiveReduction = .ok g' ∧
+      Refines g' ⟨s.N, fun u w => s.E u w ∧ ¬ ∃ j, s.E u j ∧ Relation.TransGen s.E j w⟩ ∧
+      (∀ u w, Relation.TransGen g'.Edge u w ↔ Relation.TransGen s.E u w) ∧
+      ∀ S : Nat → Nat → Prop, (∀ a b, Relation.TransGen S a b ↔ Relation.TransGen s.E a b) →
+        ∀ a b, g'.Edge a b → S a b := by
+  have eE : g.Edge = s.E := by funext u w; exact propext (h.2.2 u w)
+  obtain ⟨g', hrun, hi, hn, he, hreach⟩ := reduction_refines h.1 (fun hc => hac ((cyclic_iff h).1 hc))
+  refine ⟨g', hrun, ⟨hi, fun z => (hn z).trans (h.2.1 z), fun u w => by rw [he u w, eE]⟩,
+    fun u w => by rw [hreach u w, eE], ?_⟩
+  intro S hS a b hab
+  obtain ⟨h1, h2⟩ := (he a b).1 hab
+  rw [eE] at h1 h2
+  exact reduction_fewest hS h1 h2
 
 /-! ### `dependencies` -/
 
